@@ -207,7 +207,8 @@ func c10custom(rep *vh.Report, seed uint64, idx int) {
 	totalValid := 0
 	for i := range links {
 		l := &c10link{tr: fake.NewTransport(fmt.Sprintf("t%d", i))}
-		g := &inputGen{r: r.Fork(), keyRaw: keyRaw, ts: 1000, trIdx: i}
+		// every link has its own sender clock, tens of seconds apart: the replay window is per link
+		g := &inputGen{r: r.Fork(), keyRaw: keyRaw, ts: 1000 + uint64((k-1-i))*7000000, trIdx: i}
 		ns := 1 + r.Intn(3)
 		for s := 0; s < ns; s++ {
 			data, uids := g.session(s, vh.Pick(20, 60)+r.Intn(vh.Pick(200, 700)), true)
@@ -597,7 +598,7 @@ func c10net(rep *vh.Report, seed uint64, idx int) {
 func TestC10(t *testing.T) {
 	rep := vh.NewReport("C10")
 	defer rep.Finish(t)
-	rep.Rule("seeded scenarios: 1..8 custom channels (sessions ending with one injected read error at an item boundary and re-opening) and TCP/UDP server endpoints with real loopback peers " +
+	rep.Rule("seeded scenarios: 1..8 custom channels (sessions ending with one injected read error at an item boundary and re-opening) and TCP/UDP server endpoints with real loopback peers, and a serial endpoint through a fake opener whose ports fail persistently at item boundaries and mid-frame " +
 		"(TCP peers disconnecting orderly, by reset and in the middle of a frame; UDP peers windowed); input = valid frames with unique ids, complete frames with wrong checksum / signature, " +
 		"unsigned frames on signed links, junk without markers, in random chunks; consumer fast / slow / bursty; 2..4 goroutines issuing Write*; heartbeats at 2 ms; schedule perturbation at " +
 		"the hook points; a quarter of the scenarios close the node first (safety half only). Per-channel automaton online + delivered-id sequence vs fed sequence offline. " +
@@ -610,6 +611,7 @@ func TestC10(t *testing.T) {
 		c10custom(rep, seed, i)
 		if i%5 == 4 {
 			c10net(rep, seed, i)
+			c10serial(rep, seed, i)
 		}
 		if rep.NViolations() > 4 {
 			break
@@ -620,6 +622,111 @@ func TestC10(t *testing.T) {
 	rep.Floor("events_close", 10)
 	rep.Floor("hook:ch.reader.afterRead", 1000)
 	rep.Floor("scenarios_net", 3)
+	rep.Floor("scenarios_serial", 3)
 	var _ = message.Message(nil)
 	var _ = ref.ParseOK
+}
+
+// c10serial: a serial endpoint through the fake opener; every port is a fresh transport whose read side fails
+// persistently, at an item boundary or in the middle of a frame; the endpoint re-opens after the reconnect delay.
+func c10serial(rep *vh.Report, seed uint64, idx int) {
+	r := vh.Sub(seed, fmt.Sprintf("c10-serial-%d", idx))
+	hookReset(r.U64(), true, true)
+	prev := gomavlib.VerifSetReconnectPeriod(10 * time.Millisecond)
+	defer gomavlib.VerifSetReconnectPeriod(prev)
+	nPorts := 2 + r.Intn(4)
+	var mu sync.Mutex
+	var expect [][]uint64
+	var ports []*fake.Transport
+	sf := &serialFake{errOpen: errors.New("open failed")}
+	g := &inputGen{r: r.Fork(), trIdx: 50, ts: 1}
+	sf.onOpen = func(n int, tr *fake.Transport) {
+		if n == 1 {
+			return // probe open of Initialize
+		}
+		mu.Lock()
+		sess := len(ports)
+		ports = append(ports, tr)
+		var data []byte
+		var uids []uint64
+		if sess < nPorts {
+			data, uids = g.session(sess, vh.Pick(20, 60)+g.r.Intn(120), true)
+		}
+		expect = append(expect, uids)
+		pr := g.r.Fork()
+		mu.Unlock()
+		if sess >= nPorts {
+			return // the last port stays silent until the node is closed
+		}
+		go func() {
+			for off := 0; off < len(data); {
+				n := 1 + pr.Intn(200)
+				if off+n > len(data) {
+					n = len(data) - off
+				}
+				tr.Feed(data[off : off+n])
+				off += n
+			}
+			if sess%2 == 1 {
+				w := uidFrame(0xDEAD, 0, 2, false, nil, 0)
+				tr.Feed(w[:len(w)/2]) // the port dies in the middle of a frame
+			}
+			tr.WaitDrained(2 * time.Second)
+			for k := 0; k < 20; k++ {
+				tr.FeedError(errSession) // persistent, as on a real device
+			}
+		}()
+	}
+	gomavlib.VerifSetSerialOpenFunc(sf.open)
+	node := &gomavlib.Node{Endpoints: []gomavlib.EndpointConf{gomavlib.EndpointSerial{Device: "/dev/ttyFAKE", Baud: 57600}}, Dialect: testDialect,
+		OutVersion: gomavlib.V2, OutSystemID: 79, HeartbeatPeriod: 3 * time.Millisecond, StreamRequestEnable: true}
+	if err := node.Initialize(); err != nil {
+		rep.HarnessError(err.Error())
+		return
+	}
+	c := newConsumer(rep, "C10", "serial", node)
+	c.start()
+	waitFor(func() bool {
+		closed := 0
+		for _, ci := range c.allChannels() {
+			if c.snapshot(ci).State == 2 {
+				closed++
+			}
+		}
+		return closed >= nPorts && len(c.openChannels()) >= 1
+	}, c.nEvents, 2*time.Second)
+	chans := c.allChannels()
+	var snaps []chanInfo
+	for _, ci := range chans {
+		snaps = append(snaps, c.snapshot(ci))
+	}
+	node.Close()
+	select {
+	case <-c.done:
+	case <-time.After(10 * time.Second):
+		rep.Inconclusive("C10 serial: event channel not closed after Close")
+		return
+	}
+	mu.Lock()
+	defer mu.Unlock()
+	for si := 0; si < nPorts; si++ {
+		rep.Count("sessions", 1)
+		if si >= len(snaps) {
+			rep.Violation("what=lost ep=serial", fmt.Sprintf("serial port %d never produced a channel", si), nil)
+			continue
+		}
+		if !eqU64(snaps[si].UIDs, expect[si]) {
+			rep.Violation("what="+classifySeq(snaps[si].UIDs, expect[si])+" ep=serial",
+				fmt.Sprintf("serial port %d: %d frame events for %d valid frames", si, len(snaps[si].UIDs), len(expect[si])), nil)
+		}
+		if snaps[si].State != 2 {
+			rep.Violation("what=no-close ep=serial", "a serial port failed but its channel was never reported closed", si)
+		} else if !errors.Is(snaps[si].CloseErr, errSession) {
+			rep.Violation("what=no-cause ep=serial", fmt.Sprintf("close event carries %v instead of the injected cause", snaps[si].CloseErr), nil)
+		}
+		rep.Count("frames_checked", len(snaps[si].UIDs))
+	}
+	rep.Count("scenarios_serial", 1)
+	rep.Distinct("sig", hookSignature())
+	rep.Eval(1)
 }
